@@ -6,8 +6,11 @@ cd /repo || exit 2
 if ! git diff --quiet; then echo "/repo has uncommitted changes"; exit 2; fi
 git apply "$P" || { echo "patch does not apply: $P"; exit 2; }
 cd /verif
+# the run on a mutated tree must not leave its evidence behind
+EV=/verif/evidence/$ID.json; [ -f $EV ] && cp $EV /var/tmp/evidence-$ID.$$.json
 OUT=$(./check $ID --tier $TIER 2>&1); RC=$?
 git -C /repo checkout -- .
+[ -f /var/tmp/evidence-$ID.$$.json ] && mv /var/tmp/evidence-$ID.$$.json $EV
 echo "$OUT" | grep -E "VIOLATION|KNOWN-FINDING|BUILD-FAILED|HARNESS" | head -5 | cut -c1-300
 echo "$OUT" | tail -1 | cut -c1-200
 if [ $RC -eq 1 ]; then echo "MUTANT $(basename $P) $ID -> DETECTED"; elif [ $RC -eq 0 ]; then echo "MUTANT $(basename $P) $ID -> MISSED"; else echo "MUTANT $(basename $P) $ID -> ERROR rc=$RC"; fi
